@@ -419,6 +419,13 @@ def mutation_space(tier, which):
                 yield bytes(tup).hex(), bytes(tup)
 
 
+try:
+    from ndn.transport.ndn_dpdk import NdnDpdkUdpFace
+    DPDK_HANDLER = NdnDpdkUdpFace.PacketHandler
+except Exception:  # noqa  (optional dependency of that transport missing)
+    DPDK_HANDLER = None
+
+
 class Victim:
     """an application in a populated state: pending Interests and handlers"""
 
@@ -544,6 +551,18 @@ def run_robust(fe_name, blob: bytes):
             viol.append((f'C06|robust|{fe_name}|transport-handler-raises|{type(e).__name__}@{tb_where(e)}',
                          f'UdpFace datagram handler raised {type(e).__name__} on {blob[:24].hex()}... (len {len(blob)})'))
         loop.drain()
+        # the other shipped datagram transport (NDN-DPDK) reads the type from the bytes in the same way
+        if DPDK_HANDLER is not None:
+            seen = []
+
+            async def dcb(typ, data):
+                seen.append(typ)
+            try:
+                DPDK_HANDLER(dcb, loop.create_future()).datagram_received(blob, ('127.0.0.1', 6363))
+            except Exception as e:  # noqa
+                viol.append((f'C06|robust|{fe_name}|transport-handler-raises|dpdk|{type(e).__name__}@{tb_where(e)}',
+                             f'NdnDpdkUdpFace datagram handler raised {type(e).__name__} on {blob[:24].hex()}... (len {len(blob)})'))
+            loop.drain()
         # a handler may only see a parameterised / signed Interest whose parameters digest is right
         if v.handled:
             try:
